@@ -74,6 +74,8 @@ Shapes == <<
   Sh("tdq_dep", "plain", "", 1, P_(DQ3) \o L_(<<NL>> \o Cimport \o <<SP,"q",NL>>) \o P_(DQ3)),
   Sh("tsq_inc", "plain", "", 3, P_(SQ3) \o L_(<<NL>> \o Include \o <<SP,DQ,"z",DQ,NL>>) \o P_(SQ3)),
   Sh("tsq_q2sp", "plain", "", 3, P_(SQ3) \o L_(<<"a",SQ,SQ,SP>>) \o P_(SQ3)),
+  Sh("tsq_q1first", "plain", "", 2, P_(SQ3) \o L_(<<SQ,"a">>) \o P_(SQ3)),
+  Sh("tdq_q2first", "plain", "", 3, P_(DQ3) \o L_(<<DQ,DQ,"a">>) \o P_(DQ3)),
   Sh("r_sq", "plain", "", 2, P_(<<"r",SQ>>) \o L_(<<"a",BS,SQ,"b">>) \o P_(<<SQ>>)),
   Sh("b_dq", "plain", "", 3, P_(<<"b",DQ>>) \o L_(<<"a">>) \o P_(<<DQ>>)),
   Sh("U_sq", "plain", "", 3, P_(<<"U",SQ>>) \o L_(<<"a">>) \o P_(<<SQ>>)),
@@ -90,6 +92,7 @@ Shapes == <<
   Sh("f_nest_other", "fstr", "", 1, P_(<<"f",DQ>>) \o E_(<<"{","d","[",SQ>>) \o L_(<<"k">>) \o E_(<<SQ,"]","}">>) \o P_(<<DQ>>)),
   Sh("f_nest_brace", "fstr", "", 2, P_(<<"f",SQ>>) \o E_(<<"{","d","[",DQ>>) \o L_(<<"}">>) \o E_(<<DQ,"]","}">>) \o P_(<<SQ>>)),
   Sh("f_dict", "fstr", "", 2, P_(<<"f",DQ>>) \o E_(<<"{",SP,"{","1",":","2","}","[","1","]",SP,"}">>) \o P_(<<DQ>>)),
+  Sh("f_dict_same_str", "fstr", "", 2, P_(<<"f",DQ>>) \o E_(<<"{",SP,"{","1",":","2","}","[",DQ>>) \o L_(<<"a">>) \o E_(<<DQ,"]","}">>) \o P_(<<DQ>>)),
   Sh("f_tri", "fstr", "", 2, P_(<<"f">> \o SQ3) \o L_(<<"a",SQ>>) \o E_(FX) \o L_(<<DQ,NL>>) \o P_(SQ3)),
   Sh("f_nest_f", "fstr", "", 2, P_(<<"f",DQ>>) \o E_(<<"{","f",SQ>>) \o L_(<<"a">>) \o E_(FX) \o E_(<<SQ,"}">>) \o P_(<<DQ>>)),
   Sh("f_nest_same", "fstr", "", 2, P_(<<"f",SQ>>) \o E_(<<"{","f",SQ>>) \o L_(<<"a">>) \o E_(FX) \o E_(<<SQ,"}">>) \o P_(<<SQ>>)),
